@@ -29,7 +29,9 @@ CLAIMS["C01"] = dict(
          "partitions against oracles derived from the definition of fill rules and set operations: (1) the contribution table "
          "IsContributingClosed (1300 reachable cells); (2) the winding-count update when two edges cross (14348 cells) and the count given to an "
          "inserted edge; (3) IntersectEdges as a whole: from every consistent state the contour calls it makes leave exactly the edges on the "
-         "solution boundary carrying output (11076 cells); (4) no product is formed in signed 64-bit arithmetic (coordinates up to 2^61). "
+         "solution boundary carrying output (11076 cells); (4) no product is formed in signed 64-bit arithmetic and no single-precision floating point is used (coordinates up to 2^61); (5) an "
+         "intersection corrected into its scanbeam stays on an edge (x recomputed at the clamped y); (6) whoever may modify the local-minima list "
+         "invalidates its 'sorted' flag. "
          "A wrong reachable cell is a wrong region for some input in general position; the "
          "converse (the behaviour of C01) is NOT decided.",
     note="Assumes the code's stated invariants for wind_cnt / wind_cnt2 and that AEL neighbours are the geometric neighbours. AEL ordering, "
@@ -41,7 +43,8 @@ CLAIMS["C11"] = dict(
     category="other",
     text="Static error-discipline rules over every public entry in builds with and without exceptions: validate-before-use of every precision "
          "parameter (path rule, interprocedural through validating callees), exact validator tables, range test before every double->int64 scaling "
-         "of caller data, exact C-boundary rejection sets evaluated over the whole uint8_t / precision domain, NoClip early return, and (no-exceptions "
+         "of caller data (and the bounds it tests take every vertex into account), exact C-boundary rejection sets evaluated over the whole uint8_t / "
+         "precision domain by interpreting the function prefix, NoClip early return, succeeded_ re-armed by every Execute, and (no-exceptions "
          "build) error codes consumed before a result is produced and every DoError paired with an error-code update. Genuine defects found are "
          "listed in known_findings.json (D8-D10) or repaired by fix: commits (D7, D13).",
     note="Does not decide that Execute returns true for all geometry (AddLocalMaxPoly mismatch reachability). Parameters are recognised by name "
@@ -56,7 +59,9 @@ CLAIMS["C12"] = dict(
          "summaries and configuration splitting: scratch members are defined before use in every Execute (DBU); scratch containers empty at entry "
          "are empty at every normal exit of every public method (CLEAN, induction over histories); Clear() resets what Add* modifies (CLEAR); "
          "nothing is carried between iterations of the per-group / per-path loops (LOOP); no pointer-order dependence; shared Vertex data is "
-         "written only while loading paths. A history can only act through a surviving member, so this quantifies over all sequences.",
+         "written only while loading paths; no Execute writes a configuration member (CONFIG.preserved); whoever modifies the local-minima list "
+         "invalidates its sorted flag (SORTED.invalidate); every output container is emptied before anything is added (OUTPUT.reset). A history can "
+         "only act through a surviving member, so this quantifies over all sequences. New members are classified by what the code does with them.",
     note="Checks the repository's own idiom (Reset at entry, CleanUp at exit) - a sufficient condition: deleting a redundant reset is reported. "
          "Exceptional exits (bad_alloc mid-operation) are not covered. std:: container methods are modelled by a frozen table.",
     technique="static analysis: field-effect abstraction of the AST + forward must-dataflow (def-before-use, container typestate, loop-carried state)",
@@ -106,7 +111,9 @@ CLAIMS["C08"] = dict(
     category="other",
     text="Static decision of necessary clauses: Rect::Contains / Intersects / IsEmpty are exact on every weak ordering of rectangle and path bounds "
          "(3682 cells, exhaustive) and RectClip64::Execute uses them as 'outside -> nothing, inside -> the input path unchanged'; nothing written "
-         "while clipping one path is read while clipping the next and the scratch containers are empty at every exit ('path by path').",
+         "while clipping one path is read while clipping the next and the scratch containers are empty at every exit ('path by path'); GetLocation's "
+         "25-cell table; the side arithmetic (GetAdjacentLocation, HeadingClockwise, AreOpposites, StartLocsAreClockwise) on its whole four-element "
+         "domain; GetBounds considers every vertex for min and max; the segment scan starts at the first segment on every path.",
     note="The location state machine, corner insertion and TidyEdges (the behaviour for crossing paths) are NOT decided.",
     technique="static analysis: abstract interpretation over orderings + loop-carried-state dataflow",
     design="§3 E3/E2, §4 C08", engine="E3")
@@ -125,7 +132,9 @@ CLAIMS["C13"] = dict(
     category="other",
     text="Static decision of necessary clauses: the extracted closed contribution table is symmetric under path reversal (Positive<->Negative with "
          "negated winding numbers) and under subject/clip exchange for Intersection, Union, Xor; LocMinSorter, IntersectListSort and HorzSegSorter are "
-         "strict weak orders depending only on their keys (all triples over a domain realising every weak ordering).",
+         "strict weak orders depending only on their keys (all triples over a domain realising every weak ordering); point equality means 'same x and "
+         "y' (z ignored) so duplicate / closing vertices are recognised; the closing-vertex test compares with the first vertex of the same path; twin "
+         "x/y locals read mirrored coordinates (transposition); no signed 64-bit products, no single-precision floating point (integer scaling).",
     note="Permutation/rotation invariance of the sweep (IsValidAelOrder tie-breaking) and the algebraic identities are NOT decided.",
     technique="static analysis: table symmetries on the abstractly interpreted decision function + comparator axioms by exhaustive interpretation",
     design="§3 E3, §4 C13", engine="E3")
@@ -134,7 +143,8 @@ CLAIMS["C15"] = dict(
     text="Static sibling identity: each of ~500 functions of the USINGZ build equals the plain build's function after erasing Z-only constructs "
          "(aligned node by node; the plain build has no z member, so z cannot flow into x, y or control); USINGZ-only functions write only z; "
          "must-follow analysis: every vertex created at a crossing in IntersectEdges reaches SetZ on all paths; DoSplitOp calls the callback before "
-         "storing the point; SetZ's decision table (end point z first, subject before clip, else DefaultZ).",
+         "storing the point; SetZ's decision table (end point z first, subject before clip, else DefaultZ); ClipperD's proxy callback follows the user's "
+         "SetZCallback at every Execute (CheckCallback table, called before ExecuteInternal).",
     note="Sufficient-condition check: a one-sided behaviour-preserving rewrite of an #ifdef branch is reported. Trusted: callbacks write only pt.z. "
          "NOT decided: that the vertex a callback saw survives CleanCollinear.",
     technique="static analysis: AST alignment modulo named patterns + forward may-pending dataflow + interpreted decision table",
@@ -143,8 +153,10 @@ CLAIMS["C18"] = dict(
     category="other",
     text="Static decision of necessary clauses on both multiplication code paths (the portable one is forced into an analysed configuration): no "
          "floating-point expression in CrossProductSign / ProductsAreEqual / IsCollinear / TriSign / Multiply and products only in 128 bits; the "
-         "portable sign logic equals sign(sign_ab*|ab| - sign_cd*|cd|) on every consistent cell; Multiply's partial sums cannot wrap (interval proof).",
-    note="That Multiply recombines the partial products correctly, PointInPolygon, GetSegmentIntersectPt and Area are numeric and NOT decided.",
+         "portable sign logic equals sign(sign_ab*|ab| - sign_cd*|cd|) on every consistent cell; Multiply's partial sums cannot wrap (interval proof); "
+         "no signed 64-bit product and no single-precision floating point anywhere; PointInPolygon's wrap-around predecessor is the container's last "
+         "vertex on all reaching definitions; twin x/y locals (incl. the HI_PRECISION GetSegmentIntersectPt) read mirrored coordinates.",
+    note="That Multiply recombines the partial products correctly, and the numeric content of PointInPolygon, GetSegmentIntersectPt and Area, are NOT decided.",
     technique="static analysis: type rule on the AST + abstract interpretation over sign/ordering cells + interval analysis",
     design="§3 E3, §4 C18", engine="E3")
 
@@ -160,7 +172,8 @@ CLAIMS["C04"] = dict(
     category="other",
     text="Static decision that the set of rings cannot depend on the output mode: paths and tree builders send closed and open contours through "
          "the same calls with the same arguments, and every branch on using_polytree_ writes only ownership fields (owner, splits, recursive_split, "
-         "polypath, OutPt::outrec), callees included (effect confinement; one reasoned exception).",
+         "polypath, OutPt::outrec), callees included (effect confinement; one reasoned exception). Path1InsidePath2's vertex vote (step and verdict for every count: a lead of two is decisive, only an equivocal count uses the "
+         "bounding-box midpoint); OutRec::splits lists only grow (never overwritten).",
     note="That the owners are right (containment, depth alternation, area equality) is NOT decided.",
     technique="static analysis: effect confinement of option-controlled regions + pipeline identity",
     design="§3 E10, §4 C04", engine="E10")
@@ -184,7 +197,8 @@ CLAIMS["C20"] = dict(
     category="other",
     text="Static decision of necessary clauses: TrimCollinear, SimplifyPath, RamerDouglasPeucker and StripNearEqual append only elements of the "
          "input (never a computed vertex), inside loops through forward-only cursors; keep/remove flags are monotone; StripDuplicates only erases; "
-         "TrimCollinear's corner test is made against the last kept vertex; SimplifyPath's pinned end distances are never overwritten. "
+         "TrimCollinear's corner test is made against the last kept vertex; SimplifyPath's pinned end distances are never overwritten; every "
+         "distance/epsilon comparison of SimplifyPath and RDP draws the line at 'removable iff distance <= epsilon'. "
          "The one flag-clearing site (RDP) is a genuine defect recorded as a known finding (D11).",
     note="Epsilon guarantees, area preservation, idempotence and the exact corner set are NOT decided.",
     technique="static analysis: AST rules on result construction and flag assignments",
